@@ -4,7 +4,7 @@
  mutants : every stored source patch (seeded/<id>/patch.diff) is applied to /repo, the owning
            property's quick check must print a VIOLATION for it, and the patch is undone again.
            (Never run while other checks are running: they all build from /repo.)"""
-import json, os, subprocess, sys, glob
+import json, os, shutil, subprocess, sys, glob
 sys.path.insert(0, os.path.dirname(os.path.realpath(__file__)))
 from vlib import *      # noqa
 
@@ -61,34 +61,65 @@ def binding():
 
 
 def mutants(ids):
+    """Each stored change is applied to a scratch worktree of /repo (never to /repo itself); a copy of the harness is pointed at
+    the worktree and built in its own target directory; the owning property's quick check must report a VIOLATION.
+    Several can run side by side (VERIF_JOBS, default 3); everything is removed afterwards."""
+    import concurrent.futures, tempfile
     dirs = sorted(glob.glob(f"{VERIF}/seeded/*/")) + sorted(glob.glob(f"{VERIF}/mutants/*/"))
-    rc = 0
+    todo = []
     for d in dirs:
         name = os.path.basename(d.rstrip("/"))
         if ids and name not in ids:
             continue
         meta = json.load(open(d + "meta.json"))
-        props = meta["detected_by"] if "detected_by" in meta else [meta["property"]]
-        st, _ = sh("git -C /repo status --porcelain --untracked-files=no")
-        _, dirty = sh("git -C /repo status --porcelain --untracked-files=no")
-        if dirty.strip():
-            print("selftest mutants: /repo has uncommitted changes; refusing")
-            return 2
-        a, out = sh(f"git -C /repo apply {d}patch.diff")
-        if a != 0:
-            print(f"selftest mutant {name}: patch does not apply: {out}")
-            rc = 1
-            continue
+        todo.append((name, d, meta.get("detected_by") or [meta["property"]], meta.get("expect", "VIOLATION")))
+
+    def one(item):
+        name, d, props, expect = item
+        base = f"/tmp/krp_mut_{name}"
+        wt, hz, wk = base + "_repo", base + "_harness", base + "_work"
+        res = []
         try:
+            sh(f"git -C /repo worktree remove --force {wt}")
+            shutil.rmtree(base + "_harness", ignore_errors=True)
+            shutil.rmtree(wk, ignore_errors=True)
+            rc, out = sh(f"git -C /repo worktree add -q --detach {wt} HEAD")
+            if rc != 0:
+                return [(name, "?", 2, "worktree: " + out[-300:])]
+            rc, out = sh(f"git -C {wt} apply {d}patch.diff")
+            if rc != 0:
+                return [(name, "?", 2, "patch does not apply: " + out[-300:])]
+            os.makedirs(hz)
+            sh(f"cp -r {VERIF}/harness/src {VERIF}/harness/Cargo.lock {VERIF}/harness/.cargo {hz}/")
+            ct = open(f"{VERIF}/harness/Cargo.toml").read().replace('"/repo/', f'"{wt}/')
+            open(f"{hz}/Cargo.toml", "w").write(ct)
+            env = dict(VERIF_HARNESS=hz, VERIF_WORK=wk, VERIF_EVIDENCE=wk + "/evidence", VERIF_REPLAYS=wk + "/replays")
             for p in props:
-                c, out = sh(f"{VERIF}/check {p} quick", cwd=VERIF, timeout=3600)
+                c, out = sh(f"{VERIF}/check {p} quick", cwd=VERIF, timeout=7200, env=env)
                 v = [l for l in out.splitlines() if l.startswith("VIOLATION")]
-                good = c == 1 and v
-                print(f"selftest mutant {name} -> {p}: exit {c} {v[0] if v else ''} -> {'detected' if good else 'MISSED'}", flush=True)
+                dv = len([l for l in out.splitlines() if l.startswith("DIVERGENCE")])
+                res.append((name, p, c, (v[0] if v else "") + (f" [{dv} divergence lines]" if dv else "")))
+        finally:
+            sh(f"git -C /repo worktree remove --force {wt}")
+            shutil.rmtree(hz, ignore_errors=True)
+            shutil.rmtree(wk, ignore_errors=True)
+        return res
+
+    rc = 0
+    jobs = int(os.environ.get("VERIF_JOBS", "3"))
+    expects = {t[0]: t[3] for t in todo}
+    with concurrent.futures.ThreadPoolExecutor(max_workers=jobs) as ex:
+        for results in ex.map(one, todo):
+            for name, p, c, info in results:
+                if expects.get(name) == "SILENT":
+                    good = c == 0
+                    print(f"selftest benign change {name} -> {p}: exit {c} {info} -> {'silent, as it must be' if good else 'FALSE ALARM'}", flush=True)
+                else:
+                    good = c == 1 and info.startswith("VIOLATION")
+                    print(f"selftest mutant {name} -> {p}: exit {c} {info} -> {'detected' if good else 'MISSED'}", flush=True)
                 if not good:
                     rc = 1
-        finally:
-            sh("git -C /repo checkout -- .")
+    sh("git -C /repo worktree prune")
     return rc
 
 
